@@ -526,6 +526,9 @@ func (f *Frame) execBinOp(x *ssa.BinOp) {
 	case token.REM:
 		f.panicEdge("(= "+b.T+" 0)", "div_by_zero", "rem")
 		f.defReg(x, "(go.rem "+a.T+" "+b.T+")", nil)
+		// ground instance of the lemma spec/lemmas/ModNeg.lean (Euclidean remainder of a negation);
+		// the solvers do not find it by themselves when the divisor is not a literal
+		ex.assume("(=> (> " + b.T + " 0) (= (mod (- " + a.T + ") " + b.T + ") (ite (= (mod " + a.T + " " + b.T + ") 0) 0 (- " + b.T + " (mod " + a.T + " " + b.T + ")))))")
 	case token.LSS:
 		f.defReg(x, "(< "+a.T+" "+b.T+")", nil)
 	case token.LEQ:
